@@ -160,31 +160,47 @@ func newRef(c histCfg) *refModel {
 
 func (m *refModel) flying() int64 { return m.admitted - m.resolved }
 
+// capEst is the bracketed capacity estimate at one instant.
+type capEst struct {
+	lo, hi       float64
+	hasData      bool
+	peak         int64
+	minLo, minHi float64
+	scale        float64
+}
+
+func (c capEst) String() string {
+	if !c.hasData {
+		return fmt.Sprintf("no pass in window: L=0 U=%.4g", c.hi)
+	}
+	return fmt.Sprintf("peak=%d minAvgLatency∈[%.4g,%.4g]ms scale=%.3g: L=%.4g U=%.4g", c.peak, c.minLo, c.minHi, c.scale, c.lo, c.hi)
+}
+
 // capacity returns the lower and upper bracket of the capacity estimate at the current time.
-func (m *refModel) capacity() (lo, hi float64, hasData bool, desc string) {
+func (m *refModel) capacity() capEst {
 	cur := m.now / m.interval
-	var peak int64
+	ce := capEst{scale: m.scale}
 	minLo, minHi := math.Inf(1), math.Inf(1)
 	for idx, b := range m.buckets {
 		if idx >= cur || idx <= cur-m.size || b.n == 0 {
 			continue // the current (partial) bucket is ignored; older than the window: gone
 		}
-		hasData = true
-		if b.n > peak {
-			peak = b.n
+		ce.hasData = true
+		if b.n > ce.peak {
+			ce.peak = b.n
 		}
 		avg := float64(b.latNs) / float64(b.n) / 1e6
 		minLo = math.Min(minLo, math.Max(0, avg-0.5))
 		minHi = math.Min(minHi, avg+1.5)
 	}
-	if !hasData {
-		hi = math.Max(1, 1000*m.scale)
-		return 0, hi, false, fmt.Sprintf("no pass in window: L=0 U=%.4g", hi)
+	if !ce.hasData {
+		ce.hi = math.Max(1, 1000*m.scale)
+		return ce
 	}
-	minLo, minHi = math.Min(1000, minLo), math.Min(1000, minHi)
-	lo = 0.1 * float64(peak) * minLo * m.scale
-	hi = math.Max(1, float64(peak)*minHi*m.scale)
-	return lo, hi, true, fmt.Sprintf("peak=%d minAvgLatency∈[%.4g,%.4g]ms scale=%.3g: L=%.4g U=%.4g", peak, minLo, minHi, m.scale, lo, hi)
+	ce.minLo, ce.minHi = math.Min(1000, minLo), math.Min(1000, minHi)
+	ce.lo = 0.1 * float64(ce.peak) * ce.minLo * m.scale
+	ce.hi = math.Max(1, float64(ce.peak)*ce.minHi*m.scale)
+	return ce
 }
 
 // ---- one history on a fresh shedder ----
@@ -192,7 +208,8 @@ func (m *refModel) capacity() (lo, hi float64, hasData bool, desc string) {
 type histResult struct {
 	key   string
 	info  string
-	short string // "<decisions with the overload branch active and requests in flight>,<sheds>"
+	active int // Allow decisions taken with the overload branch active (cpu over / cool-off) and requests in flight
+	sheds  int
 	err   string
 	class string
 }
@@ -211,13 +228,30 @@ type histRun struct {
 	nadmit   int
 	active   int
 	step     int
-	trail    []string
+	trail    []OpDef
+}
+
+func (h *histRun) trailString() string {
+	var out []string
+	for i := 0; i < len(h.trail); {
+		j := i
+		for j < len(h.trail) && h.trail[j] == h.trail[i] {
+			j++
+		}
+		if j-i > 1 {
+			out = append(out, fmt.Sprintf("%v ×%d", h.trail[i], j-i))
+		} else {
+			out = append(out, h.trail[i].String())
+		}
+		i = j
+	}
+	return strings.Join(out, "; ")
 }
 
 func (h *histRun) fail(class, format string, a ...any) bool {
 	if h.res.err == "" {
 		h.res.class = class
-		h.res.err = fmt.Sprintf("step %d: ", h.step) + fmt.Sprintf(format, a...) + " | history: " + strings.Join(h.trail, "; ")
+		h.res.err = fmt.Sprintf("step %d: ", h.step) + fmt.Sprintf(format, a...) + " | history: " + h.trailString()
 	}
 	return false
 }
@@ -244,10 +278,14 @@ func (h *histRun) checkFlying(after string) bool {
 func (h *histRun) allow(over bool) bool {
 	m := h.m
 	h.step++
-	name := OpDef{K: "allow", Over: over}.String()
-	h.trail = append(h.trail, name)
+	name := "Allow(cpu-under)"
+	if over {
+		name = "Allow(cpu-over)"
+	}
+	h.trail = append(h.trail, OpDef{K: "allow", Over: over})
 	before := m.flying()
-	lo, hi, hasData, cdesc := m.capacity()
+	ce := m.capacity()
+	lo, hi, hasData := ce.lo, ce.hi, ce.hasData
 	if before > 0 && (over || (m.everShed && m.lastOver >= 0 && m.now-m.lastOver < coolOff)) {
 		h.active++
 	}
@@ -256,7 +294,7 @@ func (h *histRun) allow(over bool) bool {
 	cpuOverNow = false
 	shed := err != nil
 	if h.verbose {
-		fmt.Printf("  step %2d t=+%-14v %-18s -> shed=%-5v in-flight before=%d refAvg=%.4g lastOverAge=%s everShed=%v | %s\n", h.step, time.Duration(m.now), name, shed, before, m.ema, ageStr(m), m.everShed, cdesc)
+		fmt.Printf("  step %2d t=+%-14v %-18s -> shed=%-5v in-flight before=%d refAvg=%.4g lastOverAge=%s everShed=%v | %s\n", h.step, time.Duration(m.now), name, shed, before, m.ema, ageStr(m), m.everShed, ce)
 	}
 	if shed && !errors.Is(err, load.ErrServiceOverloaded) {
 		return h.fail("allow-unknown-error", "Allow returned error %v", err)
@@ -283,7 +321,7 @@ func (h *histRun) allow(over bool) bool {
 			}
 		}
 		if float64(before) <= lo*(1-eps) {
-			return h.fail("shed-below-10pct-capacity", "%s was shed with %d in flight, not above 10%% of the capacity estimate (%s)", name, before, cdesc)
+			return h.fail("shed-below-10pct-capacity", "%s was shed with %d in flight, not above 10%% of the capacity estimate (%s)", name, before, ce)
 		}
 	} else {
 		if !h.disabled && over && float64(before) > hi*(1+eps) && m.ema > hi*(1+eps) {
@@ -291,7 +329,7 @@ func (h *histRun) allow(over bool) bool {
 			if !hasData {
 				cls += ":empty-window"
 			}
-			return h.fail(cls, "%s was admitted although the CPU is over the threshold, %d in flight and moving average %.4g both exceed the capacity estimate (%s)", name, before, m.ema, cdesc)
+			return h.fail(cls, "%s was admitted although the CPU is over the threshold, %d in flight and moving average %.4g both exceed the capacity estimate (%s)", name, before, m.ema, ce)
 		}
 		h.nadmit++
 		m.out = append(m.out, m.now)
@@ -315,10 +353,14 @@ func ageStr(m *refModel) string {
 }
 
 // resolve finishes promise i with Pass or Fail.
-func (h *histRun) resolve(i int, pass bool, label string) bool {
+func (h *histRun) resolve(i int, pass bool, o OpDef) bool {
 	m := h.m
 	h.step++
-	h.trail = append(h.trail, label)
+	h.trail = append(h.trail, o)
+	label := "Fail"
+	if pass {
+		label = "Pass"
+	}
 	p := h.promises[i]
 	start := m.out[i]
 	h.promises = append(h.promises[:i:i], h.promises[i+1:]...)
@@ -346,7 +388,7 @@ func (h *histRun) resolve(i int, pass bool, label string) bool {
 
 func (h *histRun) jump(d int64) {
 	h.step++
-	h.trail = append(h.trail, "+"+time.Duration(d).String())
+	h.trail = append(h.trail, OpDef{K: "jump", D: d})
 	vsched.AdvanceGlobal(time.Duration(d))
 	h.m.now += d
 	// forget reference buckets that left every future window
@@ -380,10 +422,10 @@ func (h *histRun) apply(o OpDef) bool {
 		if o.New {
 			i = len(h.promises) - 1
 		}
-		return h.resolve(i, o.K == "pass", o.String())
+		return h.resolve(i, o.K == "pass", o)
 	case "passall", "failall":
 		for len(h.promises) > 0 {
-			if !h.resolve(0, o.K == "passall", o.String()) {
+			if !h.resolve(0, o.K == "passall", OpDef{K: strings.TrimSuffix(o.K, "all")}) {
 				return false
 			}
 		}
@@ -427,7 +469,7 @@ func runHistory(c histCfg, disabled bool, ops []OpDef, verbose bool) histResult 
 		}
 	}
 	h.res.key, h.res.info = h.stateKey()
-	h.res.short = fmt.Sprintf("%d,%d", h.active, h.nshed)
+	h.res.active, h.res.sheds = h.active, h.nshed
 	if verbose {
 		fmt.Printf("  state: %s\n", h.res.info)
 	}
